@@ -573,7 +573,8 @@ class Interp:
                 if op in ('<<', '>>') and not (0 <= b < 128):
                     return None
                 f_ = {'==': lambda: int(a == b), '!=': lambda: int(a != b), '<': lambda: int(a < b), '>': lambda: int(a > b), '<=': lambda: int(a <= b), '>=': lambda: int(a >= b),
-                      '&': lambda: a & b, '|': lambda: a | b, '^': lambda: a ^ b, '+': lambda: a + b, '-': lambda: a - b, '*': lambda: a * b, '<<': lambda: a << b, '>>': lambda: a >> b}.get(op)
+                      '&': lambda: a & b, '|': lambda: a | b, '^': lambda: a ^ b, '+': lambda: a + b, '-': lambda: a - b, '*': lambda: a * b, '<<': lambda: a << b, '>>': lambda: a >> b,
+                      '/': lambda: (a // b if a >= 0 and b > 0 else None), '%': lambda: (a % b if a >= 0 and b > 0 else None)}.get(op)
                 return f_() if f_ else None
             except Exception:
                 return None
